@@ -37,6 +37,7 @@ type pipeNode struct {
 func (p pipeNode) Connect() (net.Conn, error) { return p.c, nil }
 
 type peer struct {
+	abort  chan struct{} // closed when Run has returned: nothing more will arrive
 	conn   net.Conn
 	frames chan can.Frame
 	closed chan struct{}
@@ -77,7 +78,26 @@ func (p *peer) collect(counts map[uint32]int, d time.Duration, stop func() bool)
 			counts[f.ID]++
 		case <-deadline:
 			return stop == nil
+		case <-p.abort:
+			p.drain(func(f can.Frame) { counts[f.ID]++ })
+			return stop == nil || stop()
 		case <-time.After(2 * time.Millisecond):
+		}
+	}
+}
+
+// drain: Run has returned, so the connection is closed; take what the reader still delivers.
+func (p *peer) drain(f func(can.Frame)) {
+	select {
+	case <-p.closed:
+	case <-time.After(2 * time.Second):
+	}
+	for {
+		select {
+		case fr := <-p.frames:
+			f(fr)
+		default:
+			return
 		}
 	}
 }
@@ -93,6 +113,13 @@ func (p *peer) quiet(id uint32, gap, limit time.Duration) (n int, ok bool) {
 				n++
 				last = time.Now()
 			}
+		case <-p.abort:
+			p.drain(func(f can.Frame) {
+				if f.ID == id {
+					n++
+				}
+			})
+			return n, true
 		case <-time.After(5 * time.Millisecond):
 		}
 		if time.Since(last) >= gap {
@@ -109,6 +136,10 @@ type nodeRun struct {
 	peer   *peer
 	cancel context.CancelFunc
 	result chan error
+	runEnd chan struct{} // closed when Run has returned
+	res    error
+	early  bool // Run returned before the scenario asked it to (e.g. a write deadline of one cycle time expired)
+	asked  int32
 	ln     net.Listener
 	dir    string
 	leak   goleak.Option
@@ -116,7 +147,7 @@ type nodeRun struct {
 }
 
 func startNode(scen, mode string, emit func(string)) (*nodeRun, error) {
-	r := &nodeRun{scen: scen + "-" + mode, mode: mode, emit: emit, result: make(chan error, 1)}
+	r := &nodeRun{scen: scen + "-" + mode, mode: mode, emit: emit, result: make(chan error, 1), runEnd: make(chan struct{})}
 	r.leak = goleak.IgnoreCurrent()
 	ctx, cancel := context.WithCancel(context.Background())
 	r.cancel = cancel
@@ -135,7 +166,7 @@ func startNode(scen, mode string, emit func(string)) (*nodeRun, error) {
 		r.ln = ln
 		r.node = examplecan.NewDRIVER("unix", path)
 		r.prepare()
-		go func() { r.result <- r.node.Run(ctx) }()
+		go func() { r.res = r.node.Run(ctx); close(r.runEnd) }()
 		type acc struct {
 			c   net.Conn
 			err error
@@ -147,7 +178,7 @@ func startNode(scen, mode string, emit func(string)) (*nodeRun, error) {
 			if a.err != nil {
 				return nil, a.err
 			}
-			r.peer = &peer{conn: a.c}
+			r.peer = &peer{conn: a.c, abort: r.runEnd}
 		case <-time.After(longWait):
 			return nil, errors.New("node did not connect")
 		}
@@ -156,8 +187,8 @@ func startNode(scen, mode string, emit func(string)) (*nodeRun, error) {
 		r.node = examplecan.NewDRIVER("none", "none")
 		r.prepare()
 		pn := pipeNode{Node: r.node.(canrunner.Node), c: c1}
-		go func() { r.result <- canrunner.Run(ctx, pn) }()
-		r.peer = &peer{conn: c2}
+		go func() { r.res = canrunner.Run(ctx, pn); close(r.runEnd) }()
+		r.peer = &peer{conn: c2, abort: r.runEnd}
 	}
 	r.peer.start()
 	return r, nil
@@ -166,7 +197,33 @@ func startNode(scen, mode string, emit func(string)) (*nodeRun, error) {
 // hooks must be installed before Run starts reading them; everything under the node lock
 func (r *nodeRun) prepare() {}
 
+// ended reports whether Run has already returned.
+func (r *nodeRun) ended() bool {
+	select {
+	case <-r.runEnd:
+		return true
+	default:
+		return false
+	}
+}
+
+// stop cancels the context on behalf of the scenario.
+func (r *nodeRun) stop() {
+	if r.ended() && atomic.LoadInt32(&r.asked) == 0 {
+		r.early = true
+	}
+	atomic.StoreInt32(&r.asked, 1)
+	r.cancel()
+}
+
 func (r *nodeRun) check(name string, ok bool, info string) {
+	if !ok && r.ended() && atomic.LoadInt32(&r.asked) == 0 {
+		// Run ended on its own (a transmit error such as an expired 1 ms write deadline): what the
+		// scenario was waiting for can no longer happen; this is not the event under test
+		r.early = true
+		r.emit(fmt.Sprintf("WN scen=%s check=inconclusive ok=1 info=%s", r.scen, hexs(name+": Run had already returned")))
+		return
+	}
 	r.emit(fmt.Sprintf("WN scen=%s check=%s ok=%s info=%s", r.scen, name, b01(ok), hexs(info)))
 }
 
@@ -181,12 +238,19 @@ func hexs(s string) string {
 func (r *nodeRun) finish(cause, hookText, msgName string) {
 	var res error
 	returned := true
+	if r.ended() && atomic.LoadInt32(&r.asked) == 0 && cause == "none" {
+		r.early = true
+	}
 	select {
-	case res = <-r.result:
+	case <-r.runEnd:
+		res = r.res
 	case <-time.After(longWait):
 		returned = false
 	}
 	r.check("run-returns", returned, "")
+	if r.early && cause == "none" {
+		cause = "other" // Run stopped because a goroutine failed, not because of the cancellation
+	}
 	got := "nil"
 	if res != nil {
 		got = hex.EncodeToString([]byte(res.Error()))
@@ -279,7 +343,7 @@ func wnEventExactlyOnce(mode string, emit func(string)) {
 	r.peer.collect(counts, 40*time.Millisecond, nil)
 	r.check("one-frame-per-request", counts[100] == want, fmt.Sprintf("accepted=%d frames=%d", want, counts[100]))
 	r.check("no-frame-without-trigger", counts[101] == 0, fmt.Sprintf("MotorCommand frames=%d with cyclic transmission disabled", counts[101]))
-	r.cancel()
+	r.stop()
 	r.finish("none", "", "")
 }
 
@@ -336,6 +400,8 @@ func wnToggles(mode string, emit func(string)) {
 		release <- struct{}{}
 		n, ok = r.peer.quiet(101, 250*time.Millisecond, longWait)
 		r.check("disable-takes-effect", ok && n <= 64, fmt.Sprintf("frames=%d after busy disable quiet=%v", n, ok))
+	case <-r.runEnd:
+		r.check("enable-takes-effect", false, "Run returned")
 	case <-time.After(longWait):
 		r.check("enable-takes-effect", false, "hook never entered while cyclic transmission enabled")
 	}
@@ -356,15 +422,18 @@ func wnToggles(mode string, emit func(string)) {
 		release <- struct{}{}
 		n, ok = waitFrames(6)
 		r.check("enable-takes-effect", ok, fmt.Sprintf("frames=%d after busy enable", n))
+	case <-r.runEnd:
+		r.check("accepted-request-transmitted", false, "Run returned")
 	case <-time.After(longWait):
 		r.check("accepted-request-transmitted", false, "event request never reached the hook")
 	}
 	select {
 	case <-evDone:
+	case <-r.runEnd:
 	case <-time.After(longWait):
 	}
 	close(release) // never block the hook again
-	r.cancel()
+	r.stop()
 	r.finish("none", "", "")
 }
 
@@ -422,7 +491,7 @@ func wnReceive(mode string, emit func(string)) {
 	got := fmt.Sprint(order, speeds)
 	mu.Unlock()
 	r.check("known-ids-in-order-one-hook-each", got == "[200 400 200 400 400] [11 12 13]", got)
-	r.cancel()
+	r.stop()
 	r.finish("none", "", "")
 }
 
@@ -511,7 +580,7 @@ func wnCancel(mode string, emit func(string)) {
 	locked(r.node, func() { r.node.Tx().MotorCommand().SetCyclicTransmissionEnabled(true) })
 	counts := map[uint32]int{}
 	r.peer.collect(counts, longWait, func() bool { return counts[101] >= 2 })
-	r.cancel()
+	r.stop()
 	r.finish("none", "", "")
 }
 
